@@ -529,7 +529,17 @@ public:
             return j.str("k", "Try").kv("body", stmt(T->getTryBlock())).kv("handlers", arr(H)).kv("l", L).done();
         }
         if (auto* RF = dyn_cast<CXXForRangeStmt>(S)) {
-            return j.str("k", "RangeFor").kv("var", varDecl(RF->getLoopVariable())).kv("range", expr(RF->getRangeInit())).kv("body", stmt(RF->getBody())).kv("l", L).done();
+            j.str("k", "RangeFor").kv("var", varDecl(RF->getLoopVariable())).kv("range", expr(RF->getRangeInit()));
+            if (auto* DD = dyn_cast<DecompositionDecl>(RF->getLoopVariable())) {
+                std::vector<std::string> Bs;
+                for (auto* B : DD->bindings()) {
+                    J b;
+                    b.str("name", B->getName()).num("id", declId(B));
+                    Bs.push_back(b.done());
+                }
+                j.kv("bindings", arr(Bs));
+            }
+            return j.kv("body", stmt(RF->getBody())).kv("l", L).done();
         }
         if (auto* O = dyn_cast<OMPExecutableDirective>(S)) {
             std::vector<std::string> Cl;
